@@ -59,7 +59,7 @@ CATALOGUE = {
     "not-under-strict-options": (R, "                with context.enter(cls.combinator) as new_context:\n                    try:\n                        new_context.transformer(value, con)\n                        context.handle_error(\n                            exc.NegateViolatedError(", "                with context.enter(cls.combinator, options=utype.Options(no_explicit_cast=True)) as new_context:\n                    try:\n                        new_context.transformer(value, con)\n                        context.handle_error(\n                            exc.NegateViolatedError(", ["C09"]),
     "and-keeps-going": (R, "                        e = exc.ParseError(value=value, type=con, origin_exc=e)\n                    context.handle_error(e)\n                    break\n            return value", "                        e = exc.ParseError(value=value, type=con, origin_exc=e)\n                    if con is cls.args[-1]:\n                        context.handle_error(e)\n                    break\n            return value", ["C09"]),
     "setitem-addition-unparsed": ("utype/schema.py", "            if unprovided(addition):\n                # ignore addition\n                return\n            return super().__setitem__(alias, addition)", "            if unprovided(addition):\n                # ignore addition\n                return\n            return super().__setitem__(alias, value)", ["C07"]),
-    "copy-shares-dict": ("utype/schema.py", "        obj.__dict__ = dict(self.__dict__)\n        return obj", "        obj.__dict__ = self.__dict__\n        return obj", ["C07", "C19"]),
+    "copy-shares-dict": ("utype/schema.py", "        obj.__dict__ = dict(self.__dict__)\n        return obj", "        obj.__dict__ = self.__dict__\n        return obj", ["C07"]),
     "setattr-failed-dependant-keeps": ("utype/schema.py", "            if state:\n                data, attrs = state\n                super().clear()", "            if state and False:\n                data, attrs = state\n                super().clear()", ["C07"]),
     "update-bypasses-parse": ("utype/schema.py", "        for key, val in data.items():\n            self.__setitem__(key, val)\n        # TODO: reduce the dependant", "        for key, val in data.items():\n            if isinstance(val, int):\n                dict.__setitem__(self, key, val)\n            else:\n                self.__setitem__(key, val)\n        # TODO: reduce the dependant", ["C07"]),
     "forwardref-no-lock": (B, "        with self._resolve_lock:\n            return self._resolve_forward_refs(", "        if True:\n            return self._resolve_forward_refs(", ["C20"]),
